@@ -20,6 +20,7 @@ type c13Case struct {
 	Log    vDoc   `json:"log"`
 	Days   []int  `json:"days"`
 	Layout string `json:"layout"`
+	TZ     string `json:"tz,omitempty"`
 }
 
 var (
@@ -47,7 +48,7 @@ func checkC13(c c13Case, ctx *vCtx) *vFailure {
 		base = append(base, "--date-format", c.Layout)
 	}
 	run := func(args ...string) string {
-		r := vRunApp(vInvocation{Args: append(append([]string{}, base...), args...)})
+		r := vRunApp(vInvocation{Args: append(append([]string{}, base...), args...), TZ: c.TZ})
 		ctx.Run(1)
 		if r.Failed {
 			vFault("C13: %v failed on valid input: %s", args, r)
@@ -191,7 +192,13 @@ func vGenWildBookLog(t *rapid.T, layout string, notes bool) (vDoc, vDoc, []int) 
 func genC13(t *rapid.T) c13Case {
 	layout := []string{"", "", "2006-01-02"}[rapid.IntRange(0, 2).Draw(t, "layout")]
 	book, log, days := vGenWildBookLog(t, layout, true)
-	return c13Case{Book: book, Log: log, Days: days, Layout: layout}
+	// days around month/year boundaries and daylight-saving changes, under any process time zone
+	shift := []int{0, 0, 56, 362, 68, 82, 243, 306, -5, 1456}[rapid.IntRange(0, 9).Draw(t, "shift")]
+	for i := range days {
+		days[i] += shift
+		log.Recs[i].Head = vFmtDay(days[i], layout)
+	}
+	return c13Case{Book: book, Log: log, Days: days, Layout: layout, TZ: c06Zones[rapid.IntRange(0, len(c06Zones)-1).Draw(t, "tz")]}
 }
 
 // ---------------------------------------------------------------------------
@@ -203,6 +210,7 @@ type c14Case struct {
 	Layout string `json:"layout"` // "" = default
 	ViaEnv bool   `json:"viaenv"`
 	ViaCfg bool   `json:"viacfg"` // date format given by the configuration file (--config) instead
+	TZ     string `json:"tz,omitempty"`
 	Begin  int    `json:"begin"` // c07Absent = none
 	End    int    `json:"end"`
 }
@@ -235,9 +243,12 @@ func checkC14(c c14Case, ctx *vCtx) *vFailure {
 		if withPeriod {
 			a = append(a, period...)
 		}
-		r := vRunApp(vInvocation{Args: a, Env: env})
+		r := vRunApp(vInvocation{Args: a, Env: env, TZ: c.TZ})
 		ctx.Run(1)
 		return r
+	}
+	if c.TZ != "" {
+		ctx.Label("tz:" + c.TZ)
 	}
 	p1 := run(lp, true, "print")
 	if p1.Failed {
@@ -356,6 +367,12 @@ var c14Layouts = []string{"", "", "2006-01-02", "02.01.2006", "02/01/2006", "2 J
 func genC14(t *rapid.T) c14Case {
 	layout := c14Layouts[rapid.IntRange(0, len(c14Layouts)-1).Draw(t, "layout")]
 	_, log, days := vGenWildBookLog(t, layout, true)
+	// place the days around a month/year boundary or a daylight-saving change
+	shift := []int{0, 0, 56, 362, 68, 82, 243, 306}[rapid.IntRange(0, 7).Draw(t, "shift")]
+	for i := range days {
+		days[i] += shift
+		log.Recs[i].Head = vFmtDay(days[i], layout)
+	}
 	// quantities with halves at the third decimal
 	for ri := range log.Recs {
 		for li := range log.Recs[ri].Lines {
@@ -365,10 +382,11 @@ func genC14(t *rapid.T) c14Case {
 		}
 	}
 	c := c14Case{Log: log, Days: days, Layout: layout, ViaEnv: rapid.Bool().Draw(t, "viaenv"), ViaCfg: rapid.IntRange(0, 2).Draw(t, "viacfg") == 0, Begin: c07Absent, End: c07Absent}
+	c.TZ = c06Zones[rapid.IntRange(0, len(c06Zones)-1).Draw(t, "tz")]
 	if rapid.IntRange(0, 3).Draw(t, "period") == 0 {
-		c.Begin = rapid.IntRange(0, 7).Draw(t, "b")
+		c.Begin = shift + rapid.IntRange(0, 7).Draw(t, "b")
 		if rapid.Bool().Draw(t, "hase") {
-			c.End = rapid.IntRange(0, 7).Draw(t, "e")
+			c.End = shift + rapid.IntRange(0, 7).Draw(t, "e")
 		}
 	}
 	return c
@@ -381,12 +399,12 @@ func init() {
 
 func TestVerifC13Random(t *testing.T) {
 	vRapid(t, "C13", "c13.random",
-		"random books and logs with wild names (commas, double quotes, colons, non-ASCII scripts, inner blanks, names that look like numbers), quantities of every shape (negative, tiny, large, many digits, exponents), repeated foods per day, nesting depth <=3, default and ISO date format; the three exports are parsed with an own RFC 4180 state machine and compared row by row with the AST / rational resolver; non-trivial = a name needs quoting or is non-ASCII and (a merged duplicate or a value that changes at the printed precision)",
+		"random books and logs with wild names (commas, double quotes, colons, non-ASCII scripts, inner blanks, names that look like numbers), quantities of every shape (negative, tiny, large, many digits, exponents), repeated foods per day, nesting depth <=3, default and ISO date format, days around month/year ends and daylight-saving changes under 12 process time zones; the three exports are parsed with an own RFC 4180 state machine and compared row by row with the AST / rational resolver; non-trivial = a name needs quoting or is non-ASCII and (a merged duplicate or a value that changes at the printed precision)",
 		vBudget(6400, 160000), genC13, checkC13)
 }
 
 func TestVerifC14Random(t *testing.T) {
 	vRapid(t, "C14", "c14.random",
-		"random logs in every layout variant with wild names, notes of both documented forms, duplicates inside a day, quantities with >2 decimals and ties at the third decimal, empty days; date format from {default, 2006-01-02, 02.01.2006, 02/01/2006, '2 Jan 2006', 20060102} given by flag, HR_DATE_FORMAT or the configuration file; optional period; oracle: print output read by an own normal-form reader = AST, the tool reads it back (csv log equal up to rounding), print of the printed log is byte-identical; non-trivial = non-default date format or notes or a merged duplicate or >=2 layout features",
+		"random logs in every layout variant with wild names, notes of both documented forms, duplicates inside a day, quantities with >2 decimals and ties at the third decimal, empty days; date format from {default, 2006-01-02, 02.01.2006, 02/01/2006, '2 Jan 2006', 20060102} given by flag, HR_DATE_FORMAT or the configuration file; optional period; days placed at month/year boundaries and daylight-saving changes under 12 process time zones; oracle: print output read by an own normal-form reader = AST, the tool reads it back (csv log equal up to rounding), print of the printed log is byte-identical; non-trivial = non-default date format or notes or a merged duplicate or >=2 layout features",
 		vBudget(4000, 96000), genC14, checkC14)
 }
